@@ -4,5 +4,9 @@ import Fir.Props.C01
 #print axioms Fir.C01.pass_err
 #print axioms Fir.C01.clamp_lipschitz
 #print axioms Fir.C01.two_pass_err
+#print axioms Fir.C01.passInt_err_u8
+#print axioms Fir.C01.passInt_err_u16
+#print axioms Fir.C01.horizPass_err_u8
+#print axioms Fir.C01.vertPass_err_u8
 #print axioms Fir.C01.supersampling_is_conv_of_nearest
 #print axioms Fir.C01.documented_constants
